@@ -3,6 +3,7 @@ import Cppcms.C01.Scgi
 import Cppcms.C01.Fcgi
 import Cppcms.C01.Http
 import Cppcms.C01.Spec
+import Cppcms.C01.PeerJudge
 /-! Line-protocol driver library for C01/C02 (shared by `c01_model` and `c02_model`).
 `scgi <seg>…` / `fastcgi <seg>…` / `http <port> <remote> <hints> <seg>…` run the buffer-level model on
 the given segmentation and print the fate of every request on the connection. -/
@@ -81,6 +82,95 @@ def preOf : Outcome → Nat
 
 def b01 (s : String) : Bool := s == "1"
 
+/-! peer-form judges: the hypotheses of the round-trip theorems (executable, sound versions), the Lean encoders
+against the bytes python sent, and the right-hand sides of the theorems against what the real application saw -/
+
+def parsePiece (s : String) : Option PctPiece :=
+  match s.toList with
+  | ['p'] => some .plus
+  | 'l' :: h => (parseHex (String.ofList h)).bind fun b => match b with | [x] => some (.lit x) | _ => none
+  | ['e', a, b, u1, u2] =>
+    (parseHex (String.ofList [a, b])).bind fun x => match x with
+      | [y] => some (.esc y (u1 == '1') (u2 == '1'))
+      | _ => none
+  | _ => none
+
+def parsePieces (s : String) : Option (List PctPiece) :=
+  if s == "-" then some [] else (s.splitOn ",").mapM parsePiece
+
+def parseFields (s : String) : Option (List HttpField) :=
+  if s == "-" then some []
+  else (s.splitOn ",").mapM fun f =>
+    match f.splitOn ":" with
+    | [n, w, v] => do pure { name := (← unhx n), ws := (← unhx w), value := (← unhx v) }
+    | _ => none
+
+def parseFLines (s : String) : Option (List FLine) :=
+  (s.splitOn ";").mapM fun l =>
+    match (l.splitOn "|").mapM unhx with
+    | some (h :: t) => some { head := h, tail := t }
+    | _ => none
+
+def parseFormFields (s : String) : Option (List FormField) :=
+  if s == "-" then some []
+  else (s.splitOn ";").mapM fun f =>
+    match f.splitOn "=" with
+    | [n, v] => do pure { name := (← parsePieces n), value := (← parsePieces v) }
+    | _ => none
+
+def parseCookieItems (s : String) : Option (List CookieItem) :=
+  if s == "-" then some []
+  else (s.splitOn ",").mapM fun c =>
+    match c.splitOn ":" with
+    | [n, v, sp, w] => do
+      let sp ← unhx sp
+      match sp with
+      | [x] => pure { name := (← unhx n), value := (← unhx v), sep := x, ws := (← unhx w) }
+      | _ => none
+    | _ => none
+
+def judgePeer : List String → String
+  | [sw, nm, port, remote, m, sc, pa, qs, proto, fields, lines, body, wire, oenv, obody] =>
+    match unhx sw, unhx nm, unhx port, unhx remote, unhx m, unhx sc, parsePieces pa,
+          (if qs == "-" then some none else (unhx qs).map some), unhx proto, parseFields fields, parseFLines lines,
+          unhx body, unhx wire, parsePairs oenv, unhx obody with
+    | some sw, some nm, some port, some remote, some m, some sc, some pa, some qs, some proto, some fields, some ls,
+      some body, some wire, some oenv, some obody =>
+      let cfg : HttpCfg := { software := sw, serverName := nm, port := port, remote := remote }
+      let q : HttpPeer := { method := m, script := sc, path := pa, query := qs, proto := proto, fields := fields }
+      let okq := q.okB cfg
+      let okw := wireB q ls
+      let same := encFLines ls ++ body == wire
+      let env := (q.head cfg).env.toMap == oenv
+      let bd := obody == body
+      if okq && okw && same && env && bd then "1"
+      else s!"0 ok={boolStr okq} wire={boolStr okw} enc={boolStr same} env={boolStr env} body={boolStr bd}"
+    | _, _, _, _, _, _, _, _, _, _, _, _, _, _, _ => "bad-op"
+  | _ => "bad-op"
+
+def judgeForm : List String → String
+  | [fs, wire, obs] =>
+    match parseFormFields fs, unhx wire, parsePairs obs with
+    | some fs, some wire, some obs =>
+      let ok := fs.all FormField.okB
+      let same := encForm fs == wire
+      let parsed := parseForm (wire.length + 1) wire []
+      let val := formSorted (fs.map FormField.meant) == obs
+      if ok && same && val && parsed.1 then "1" else s!"0 ok={boolStr ok} enc={boolStr same} val={boolStr val}"
+    | _, _, _ => "bad-op"
+  | _ => "bad-op"
+
+def judgeCookies : List String → String
+  | [cs, wire, obs] =>
+    match parseCookieItems cs, unhx wire, parseCookies4 obs with
+    | some cs, some wire, some obs =>
+      let ok := cs.all CookieItem.okB
+      let same := encCookies cs == wire
+      let val := (cookiesMeant [] cs).map (fun kc => (kc.1, kc.2.value, kc.2.path, kc.2.domain)) == obs
+      if ok && same && val then "1" else s!"0 ok={boolStr ok} enc={boolStr same} val={boolStr val}"
+    | _, _, _ => "bad-op"
+  | _ => "bad-op"
+
 def judge : List String → String
   | ["view", m, sc, pa, q, hd, g, po, ck, bo, rf, env, nm, og, op, oc, ob] =>
     match unhx m, unhx sc, unhx pa, unhx q, parsePairs hd, parsePairs g, parsePairs po, parsePairs ck, unhx bo,
@@ -91,6 +181,9 @@ def judge : List String → String
                              cookies := ck, body := bo, rawFilter := b01 rf }
                            { env := env, names := nm, get := og, post := op, cookies := oc, body := ob })
     | _, _, _, _, _, _, _, _, _, _, _, _, _, _, _ => "bad-op"
+  | "peer" :: rest => judgePeer rest
+  | "form" :: rest => judgeForm rest
+  | "cookies" :: rest => judgeCookies rest
   | "c02" :: exc :: probeOk :: closed :: reset :: pre :: ready :: onerr :: eoc :: n200 :: nErr :: framed :: cmd =>
     match runModel cmd, pre.toNat?, ready.toNat?, onerr.toNat?, eoc.toNat?, n200.toNat?, nErr.toNat? with
     | some outs, some pre, some ready, some onerr, some eoc, some n200, some nErr =>
